@@ -1,6 +1,204 @@
 import OtelVerif.Common.Line
 import OtelVerif.Model.C02
-/-! driver for C02 (stub) -/
-def main : IO UInt32 := do
-  IO.eprintln "drv_c02: not built yet"
-  return 2
+import OtelVerif.Model.C02Check
+/-! driver for C02: models `c02-cond` (cond.go alone, scheduler-controlled lock) and `c02-queue`
+(memory queue, run-to-quiescence after every environment label) -/
+open OtelVerif OtelVerif.Line OtelVerif.C02
+
+namespace OtelVerif.Drivers.C02
+
+def joinOr (sep : String) (xs : List String) : String := if xs.isEmpty then "-" else sep.intercalate xs
+
+def insertSorted (x : Nat) : List Nat → List Nat
+  | [] => [x]
+  | y :: ys => if x < y then x :: y :: ys else if x = y then y :: ys else y :: insertSorted x ys
+
+/-! ## cond level -/
+
+structure CD where
+  s : CSt := {}
+  kinds : List (Nat × String) := []
+  pend0 : List Nat := []
+  doneS : List Nat := []
+  started : List Nat := []
+  mon : Check.CMon := {}
+
+def CD.status (d : CD) (t : Nat) : String :=
+  if t ∈ d.pend0 then "L"
+  else if t ∈ d.doneS then "D"
+  else match (d.s.ws t).ph with
+    | .idle => "I"
+    | .sel => "S"
+    | .wokenTok => "L"
+    | .wokenCtx => "L"
+    | .done .nil => "N"
+    | .done .ctx => "C"
+
+def CD.obs (d : CD) : String :=
+  "obs st " ++ joinOr " " (d.started.map (fun t => s!"{t}:{d.status t}"))
+
+/-- eager exits from the select (run-to-quiescence): a signalled waiter leaves through its channel, a
+cancelled one through ctx.Done() -/
+def CD.closure (d : CD) : CD :=
+  d.started.foldl (fun d t =>
+    match cfire d.s (.wakeTok t) with
+    | some s' => { d with s := s' }
+    | none => match cfire d.s (.wakeCtx t) with
+      | some s' => { d with s := s' }
+      | none => d) d
+
+def condHandler : Handler CD where
+  init := {}
+  onObs := fun d toks => { d with mon := d.mon.onObs toks }
+  onOp := fun d toks =>
+    let d := { d with mon := d.mon.onOp toks }
+    match toks with
+    | ["start", t, k] =>
+      match t.toNat? with
+      | some t =>
+        if t ∈ d.started ∨ ¬ (k = "w" ∨ k = "s" ∨ k = "b") then (d, ["obs bad-op"]) else
+        let d := { d with kinds := (t, k) :: d.kinds, pend0 := d.pend0 ++ [t], started := insertSorted t d.started }
+        (d, [d.obs])
+      | none => (d, ["obs bad-op"])
+    | ["grant", t] =>
+      match t.toNat? with
+      | some t =>
+        if t ∈ d.pend0 then
+          let d1 := { d with pend0 := d.pend0.erase t }
+          match d.kinds.lookup t with
+          | some "w" =>
+            match cfire d1.s (.wait t) with
+            | some s' => let d2 := ({ d1 with s := s' } : CD).closure; (d2, [d2.obs])
+            | none => (d, ["obs bad-step"])
+          | some "s" =>
+            match cfire d1.s .signal with
+            | some s' => let d2 := ({ d1 with s := s', doneS := t :: d1.doneS } : CD).closure; (d2, [d2.obs])
+            | none => (d, ["obs bad-step"])
+          | some "b" =>
+            match cfire d1.s .broadcast with
+            | some s' => let d2 := ({ d1 with s := s', doneS := t :: d1.doneS } : CD).closure; (d2, [d2.obs])
+            | none => (d, ["obs bad-step"])
+          | _ => (d, ["obs bad-op"])
+        else
+          let l := match (d.s.ws t).ph with
+            | .wokenTok => some (CLabel.relockTok t)
+            | .wokenCtx => some (CLabel.relockCtx t)
+            | _ => none
+          match l.bind (cfire d.s) with
+          | some s' => let d2 := ({ d with s := s' } : CD).closure; (d2, [d2.obs])
+          | none => (d, ["obs bad-step"])
+      | none => (d, ["obs bad-op"])
+    | ["cancel", t] =>
+      match t.toNat? with
+      | some t =>
+        match cfire d.s (.cancel t) with
+        | some s' => let d2 := ({ d with s := s' } : CD).closure; (d2, [d2.obs])
+        | none => (d, ["obs bad-step"])
+      | none => (d, ["obs bad-op"])
+    | _ => (d, ["obs bad-op"])
+  onEnd := fun d => d.mon.verdict
+
+/-! ## queue level -/
+
+structure QD where
+  k : Cfg := { cap := 1, block := false, wfr := false }
+  s : St := {}
+  prods : List Nat := []
+  cons : List (Nat × String) := []
+  bad : Bool := false
+  mon : Check.Mon := {}
+
+def resStr : Res → String
+  | .ok => "nil"
+  | .invalid => "inv"
+  | .tooLarge => "big"
+  | .full => "full"
+  | .ctxErr => "ctx"
+  | .result e => if e = 0 then "nil" else s!"e{e}"
+
+def QD.pstatus (d : QD) (p : Nat) : String :=
+  match (d.s.ps p).ph with
+  | .done r => resStr r
+  | .idle => "I"
+  | _ => "B"
+
+def setCons (cs : List (Nat × String)) (c : Nat) (v : String) : List (Nat × String) :=
+  match cs with
+  | [] => [(c, v)]
+  | (c', v') :: r => if c < c' then (c, v) :: (c', v') :: r else if c = c' then (c, v) :: r else (c', v') :: setCons r c v
+
+def QD.obs (d : QD) : String :=
+  s!"obs size={d.s.size} Q={joinOr "," (d.s.items.map (fun x => toString x.1))} " ++
+  s!"P={joinOr "," (d.prods.map (fun p => s!"{p}:{d.pstatus p}"))} " ++
+  s!"C={joinOr "," (d.cons.map (fun c => s!"{c.1}:{c.2}"))}"
+
+/-- the first enabled internal label, in a fixed order (in run-to-quiescence mode at most one thread is
+runnable at a time, see the harness) -/
+def QD.nextInternal (d : QD) : Option Label :=
+  let cands : List Label :=
+    d.prods.flatMap (fun p => [.wakeTok p, .wakeCtx p, .relockTok p, .relockCtx p, .getRes p, .resCtx p]) ++
+    (match d.s.cwait with | c :: _ => [Label.recheck c] | [] => [])
+  cands.find? (fun l => (fire d.k d.s l).isSome)
+
+def QD.applyLabel (d : QD) (l : Label) : Option QD :=
+  match fire d.k d.s l with
+  | none => none
+  | some s' =>
+    let cons := match l with
+      | .read c | .recheck c =>
+        if s'.handed.length > d.s.handed.length then setCons d.cons c s!"i{s'.handed.getLast?.getD 0}"
+        else if c ∈ s'.cwait then setCons d.cons c "B"
+        else setCons d.cons c "S"
+      | _ => d.cons
+    some { d with s := s', cons := cons }
+
+def QD.closure : Nat → QD → QD
+  | 0, d => d
+  | fuel + 1, d =>
+    match d.nextInternal with
+    | none => d
+    | some l => match d.applyLabel l with
+      | some d' => QD.closure fuel d'
+      | none => d
+
+def QD.ext (d : QD) (l : Label) : QD × List String :=
+  match d.applyLabel l with
+  | some d' => let d2 := QD.closure 10000 d'; (d2, [d2.obs])
+  | none => ({ d with bad := true }, ["obs bad-step"])
+
+def parseBool (s : Option String) : Bool := s = some "1"
+
+def queueHandler : Handler QD where
+  init := {}
+  onCase := fun d toks =>
+    let k : Cfg := { cap := (kvInt toks "cap").getD 1, block := parseBool (kv toks "block"), wfr := parseBool (kv toks "wfr") }
+    { d with k := k, mon := { cap := k.cap, block := k.block, wfr := k.wfr } }
+  onOp := fun d toks =>
+    let (d', outs) : QD × List String :=
+      match toks with
+      | ["offer", p, el] =>
+        match p.toNat?, el.toInt? with
+        | some p, some el => ({ d with prods := insertSorted p d.prods } : QD).ext (.offer p el)
+        | _, _ => (d, ["obs bad-op"])
+      | ["cancel", p] =>
+        match p.toNat? with
+        | some p => d.ext (.cancel p)
+        | none => (d, ["obs bad-op"])
+      | ["read", c] =>
+        match c.toNat? with
+        | some c => d.ext (.read c)
+        | none => (d, ["obs bad-op"])
+      | ["done", id, e] =>
+        match id.toNat?, e.toNat? with
+        | some id, some e => d.ext (.complete id e)
+        | _, _ => (d, ["obs bad-op"])
+      | ["shutdown"] => d.ext .shutdown
+      | _ => (d, ["obs bad-op"])
+    ({ d' with mon := d'.mon.onOp toks }, outs)
+  onObs := fun d toks => { d with mon := d.mon.onObs toks }
+  onEnd := fun d => d.mon.verdict
+
+end OtelVerif.Drivers.C02
+
+def main : IO UInt32 :=
+  runMulti [("c02-cond", run OtelVerif.Drivers.C02.condHandler), ("c02-queue", run OtelVerif.Drivers.C02.queueHandler)]
